@@ -86,6 +86,12 @@ let ranker spec : n -> n =
     (fun b -> n_of_int t.(int_of_n b))
   end else failwith ("unknown ranker " ^ spec)
 
+let backend_of be cpu =
+  match be with
+  | "swar" -> BSwar | "sse2" -> BSse2 | "avx2" -> BAvx2 | "neon" -> BNeon | "simd128" -> BSimd128
+  | "top" -> x86_choice (match cpu with "sse2" -> Sse2Only | "none" -> NoSimd | _ -> HasAvx2)
+  | _ -> failwith ("unknown backend " ^ be)
+
 let run_case op kv : string * string =
   match op with
   | "iseq" | "ispre" | "issuf" ->
@@ -101,6 +107,14 @@ let run_case op kv : string * string =
     let x = bytes kv "x" in
     let r = pair_with_indices x (nat_of_int (num kv "i1")) (nat_of_int (num kv "i2")) in
     (fmt_opt_pair r, "-")
+  | "find" | "rfind" | "count" ->
+    let ns = bytes kv "ns" and h = bytes kv "h" in
+    let a = nat_of_int (num kv "a") in
+    let be = backend_of (get kv "be") (get kv "cpu") in
+    (match op with
+     | "find" -> let (r, t) = backend_find ns a h be in (fmt_res fmt_opt_nat r, fmt_trace t)
+     | "rfind" -> let (r, t) = backend_rfind ns a h be in (fmt_res fmt_opt_nat r, fmt_trace t)
+     | _ -> let (r, t) = backend_count ns a h be in (fmt_res (fun n -> string_of_int (int_of_nat n)) r, fmt_trace t))
   | _ -> ("UnknownOp", "-")
 
 let () =
